@@ -32,6 +32,42 @@ type Workload struct {
 	// C15
 	Policies []simrt.Policy `json:"policies,omitempty"`
 	Note     string         `json:"note,omitempty"`
+	// Share[i] = {dst, src, field}: document dst gets the very same Go value as
+	// document src under that top-level member (sub-tree shared between documents)
+	Share [][3]string `json:"share,omitempty"`
+}
+
+// applyShares makes documents share sub-trees as described by w.Share.
+func applyShares(w *Workload, docs []any) {
+	for _, sh := range w.Share {
+		dst, err1 := strconv.Atoi(sh[0])
+		src, err2 := strconv.Atoi(sh[1])
+		if err1 != nil || err2 != nil || dst < 0 || src < 0 || dst >= len(docs) || src >= len(docs) || dst == src {
+			continue
+		}
+		dm, ok1 := docs[dst].(map[string]any)
+		sm, ok2 := docs[src].(map[string]any)
+		if !ok1 || !ok2 || dm == nil {
+			continue
+		}
+		if v, ok := sm[sh[2]]; ok {
+			dm[sh[2]] = v
+		}
+	}
+}
+
+func genShares(r *Rng, ndocs int) [][3]string {
+	var out [][3]string
+	if ndocs < 2 || !r.P(1, 4) {
+		return nil
+	}
+	n := 1 + r.Intn(2)
+	for i := 0; i < n; i++ {
+		dst := 1 + r.Intn(ndocs-1)
+		src := r.Intn(dst)
+		out = append(out, [3]string{strconv.Itoa(dst), strconv.Itoa(src), pick(r, []string{"recs", "nums", "rmap", "omap", "nest", "strs"})})
+	}
+	return out
 }
 
 func (w *Workload) clone() *Workload {
@@ -92,6 +128,7 @@ func GenC07(seed, index uint64) *Workload {
 	for i := 0; i < ndocs; i++ {
 		w.Docs = append(w.Docs, GenDoc(r.Fork(uint64(i)), "T"+strconv.Itoa(i), poison, spare))
 	}
+	w.Share = genShares(r, ndocs)
 	bias := Bias{Enum: pick(r, []int{10, 30}), Lits: pick(r, []int{20, 50}), Fail: pick(r, []int{0, 5, 12}), Let: pick(r, []int{8, 20}), Unsafe: 50, Invalid: pick(r, []int{0, 5})}
 	nexpr := 1 + r.Intn(3)
 	for i := 0; i < nexpr; i++ {
@@ -191,6 +228,7 @@ func GenC06(seed, index uint64, maxOps int) *Workload {
 	for i := 0; i < ndocs; i++ {
 		w.Docs = append(w.Docs, GenDoc(r.Fork(uint64(i)), "H"+strconv.Itoa(i), poison, spare))
 	}
+	w.Share = genShares(r, ndocs)
 	bias := Bias{Enum: pick(r, []int{10, 25}), Lits: pick(r, []int{30, 60}), Fail: pick(r, []int{3, 10, 20}), Let: pick(r, []int{8, 20}), Unsafe: 50, Invalid: pick(r, []int{3, 10})}
 	nexpr := 1 + r.Intn(3)
 	for i := 0; i < nexpr; i++ {
@@ -215,9 +253,19 @@ func GenC06(seed, index uint64, maxOps int) *Workload {
 	nresults := 0
 	docs := ndocs
 	fed := map[int]bool{}
+	lastSlot, lastDoc, afterMut := -1, -1, false
 	for k := 0; k < nops; k++ {
 		op := Op{Pol: randPolicy(r)}
 		c := r.Intn(20)
+		if afterMut && lastSlot >= 0 && r.P(7, 10) {
+			// evaluate again what was evaluated before the caller changed its document
+			afterMut = false
+			op.K, op.Slot, op.D = "esearch", lastSlot, lastDoc
+			nresults++
+			ops = append(ops, op)
+			continue
+		}
+		afterMut = false
 		switch {
 		case nslots == 0 || c == 0:
 			op.K = "compile"
@@ -232,6 +280,7 @@ func GenC06(seed, index uint64, maxOps int) *Workload {
 			op.Slot = r.Intn(nslots)
 			op.D = r.Intn(docs)
 			nresults++
+			lastSlot, lastDoc = op.Slot, op.D
 		case c <= 13:
 			op.K = "search"
 			op.E = r.Intn(nexpr)
@@ -251,9 +300,13 @@ func GenC06(seed, index uint64, maxOps int) *Workload {
 			if fed[d] {
 				d = r.Intn(ndocs)
 			}
+			if lastDoc >= 0 && !fed[lastDoc] && r.P(2, 3) {
+				d = lastDoc
+			}
 			op.K = "mutate"
 			op.D = d
 			op.Mut = r.U64() | 1
+			afterMut = true
 		default:
 			op.K = "esearch"
 			op.Slot = r.Intn(nslots)
